@@ -68,6 +68,7 @@ func Forward(
 	}
 	defer func() { _ = dst.Close() }()
 
+	verifhook.Point("lb.dialed", "backend", backendAddr)
 	if err = emptyReadBuff(client, dst); err != nil {
 		errs.V(log, err).Info("failed to empty client buffer", "error", err)
 		return
@@ -298,6 +299,7 @@ func dialRoute(
 	}
 	if forceUpdatePacketContext {
 		update(handshakeCtx, handshake)
+		verifhook.Point("fw.updated", "backend", backendAddr)
 	}
 
 	// Forward handshake packet as is.
